@@ -5,7 +5,8 @@
    changes of the service and with other store calls (handles taken, handles read, lookups), then
    `apply_updates` iff no request failed (store.go:290-310 Refresh, 538-559 poll, 595-632
    applyUpdates).  Refresh is single-flighted (store.go:291): a Refresh arriving while a poll is
-   in flight starts nothing and receives that poll's result.
+   in flight starts nothing and receives that poll's result.  Every caller has its own context:
+   the leader's governs the poll's requests, a caller whose context ends returns at once (ECancel).
 
    Executable definitions only; the proofs are in PollProofs.v. *)
 From Coq Require Import List Bool NArith ZArith.
